@@ -271,3 +271,25 @@ func VerifC19_HeaderDecodeAtOffset() {
 	err := h.Decode(d)
 	vr.Assert((err != nil) == (n-off < 8), "error iff fewer than 8 bytes remain")
 }
+
+// Header.Decode of a short input that is a window of a larger buffer (a frame inside a receive
+// buffer): the bytes after the window are not part of the input, so fewer than 8 bytes is still
+// an error — a re-slice within the spare capacity would not panic and so would not be recovered.
+func VerifC19_HeaderDecodeWindow() {
+	buf := vr.Bytes("buf", 16)
+	start := vr.IntRange("start", 0, 4)
+	n := vr.IntRange("n", 0, 12)
+	data := buf[start : start+n]
+	off := vr.IntRange("off", 0, n)
+	d := NewDecoder(data)
+	d.Skip(off)
+	var h Header
+	err := h.Decode(d)
+	vr.Assert((err != nil) == (n-off < 8), "error iff fewer than 8 bytes remain in the window")
+	if err == nil {
+		b := data[off:]
+		vr.Assert(h.Version == b[0] && h.Type == b[1], "version and type")
+		vr.Assert(h.Length == uint16(b[2])<<8|uint16(b[3]), "length")
+		vr.Assert(h.Xid == uint32(b[4])<<24|uint32(b[5])<<16|uint32(b[6])<<8|uint32(b[7]), "xid")
+	}
+}
